@@ -37,6 +37,8 @@ class Partitioned(dataflow.Client):
             new = {}
             for tag, s in st.items():
                 nt = self.retag_edge(fn, tag, cond, truth)
+                if nt is None:
+                    continue   # the typestate contradicts this edge
                 new[nt] = self.inner.join(new[nt], s) if nt in new else s
             st.clear()
             st.update(new)
